@@ -48,8 +48,16 @@ def check_C15(ctx):
     ctx.trusted += M2_TRUST
     ok = coq_props(ctx, "C15", ["C15_mutators_refuse", "C15_stfs_quiet", "C15_file_quiet", "C15_file_mutators_refuse",
                                 "C15_openfile_grants_nothing", "C15_flags_only_in_openfile", "C15_sem", "C15_nonvacuous"])
+    # the model half (M1, Props/C15Model.v): every state, every history
+    ok = coq_props(ctx, "C15Model", ["C15_step_tape", "C15_step_tape_ro_call", "C15_step_rows", "C15_step_only_cache", "C15_step_frame", "C15_step_nothing_when_root_cached",
+                                     "C15_mutators_perm", "C15_archive_refused", "C15_writefile_table", "C15_writefile_flags_irrelevant", "C15_writefile_never_ok", "C15_openfile_ro",
+                                     "C15_initialize", "C15_has_root_iff", "C15_history", "C15_history_fs_calls", "C15_history_any", "C15_view_as_writable", "C15_read_path_as_writable",
+                                     "C15_openfile_rdonly_as_writable", "C15_view_history", "C15_view_history_wr", "C15_reads_history", "C15_ro_handle_ops", "C15_rdonly_handle_as_writable",
+                                     "C15_handle_write_refused", "C15_handle_close_nobuf", "C15_written_opened", "C15_ro_over_written", "C15_demo_history", "C15_demo_foreign", "C15_demo_written"]) and ok
     import drv
+    ctx.trusted += M1_TRUST
     drv.readonly_C15(ctx, proof_ok=ok)
+    drv.readonly_model_tie(ctx)
 
 
 
